@@ -102,6 +102,16 @@ void usim_solo_end(void);
 void usim_freeze(int tid, int on);
 /* pthread_create() by the calling thread may fail with EAGAIN (fault kind pthread_create_eagain) */
 void usim_allow_create_fail(int on);
+/*
+ * Planned suspension of the calling thread inside its next library operation
+ * ("an enqueuer suspended between its tail exchange and its link store"): at
+ * its ordinal-th next yield point that is an atomic load/store, a
+ * read-modify-write or a fence, the thread is frozen for `steps` scheduler
+ * steps (others run meanwhile), provided somebody else can run. A freeze is
+ * always a legal schedule. usim_stall_cancel() drops a plan that has not fired.
+ */
+void usim_stall_plan(int ordinal, uint32_t steps);
+void usim_stall_cancel(void);
 /* Plain yield point callable from harness code */
 void usim_yield(void);
 /* A yield point at which other threads are strongly preferred. */
